@@ -286,8 +286,57 @@ func checkC11(c c11Case, r *vcore.Rec) *vcore.Failure {
 			r.ClassIf(strings.HasPrefix(kb, ka), "crossed_entry_prefix_related")
 		}
 	}
-	// (c)(d) list -> release differential
 	sort.Slice(entries, func(i, j int) bool { return entries[i].IP < entries[j].IP })
+	// (c'') several listed entries posted back in ONE request, app type spelled out for some and omitted for the statefulset ones
+	// (the documented default), in list order and with the explicit ones first: exactly those IPs are released
+	{
+		var explicit, omitted []api.FloatingIP
+		for _, e := range entries {
+			if key, ok := owner[e.IP]; !ok || !e.Releasable || byKey[key].Exists {
+				continue
+			}
+			if e.AppType == "statefulset" {
+				v := e
+				v.AppType = ""
+				omitted = append(omitted, v)
+			} else if e.AppType != "" {
+				explicit = append(explicit, e)
+			}
+		}
+		if len(explicit) > 0 && len(omitted) > 0 {
+			if len(explicit) > 2 {
+				explicit = explicit[:2]
+			}
+			if len(omitted) > 2 {
+				omitted = omitted[:2]
+			}
+			batch := append(append([]api.FloatingIP{}, explicit...), omitted...)
+			want := map[string]bool{}
+			for _, e := range batch {
+				want[e.IP] = true
+			}
+			before := w.Snap()
+			req, _ := json.Marshal(api.ReleaseIPReq{IPs: batch})
+			code, body := x.HTTP("POST", "/v1/ip", req)
+			after := w.Snap()
+			for ip, f := range before.Alloc {
+				_, still := after.Alloc[ip]
+				if want[ip] == still {
+					return vcore.Failf("c11:batch_release", "one request with %d listed entries (app type given for the first %d, omitted for the statefulset "+
+						"ones) -> HTTP %d %s; IP %s (key %q) released=%v, expected released=%v; request %s", len(batch), len(explicit), code,
+						strings.TrimSpace(body), ip, f.Key, !still, want[ip], req)
+				}
+			}
+			for _, e := range batch { // put them back for the per-entry differential below
+				k := owner[e.IP]
+				if err := ipam.AllocateSpecificIP(k, net.ParseIP(e.IP), floatingip.Attr{Policy: constant.ReleasePolicy(byKey[k].Policy)}); err != nil {
+					return vcore.Failf("harness:alloc", "re-allocation after the batch failed: %v", err)
+				}
+			}
+			r.Class("batch_release_mixed_apptype")
+		}
+	}
+	// (c)(d) list -> release differential
 	for _, e := range entries {
 		key, allocated := owner[e.IP]
 		if !allocated {
